@@ -121,5 +121,6 @@ pub fn property() -> Property {
             "maps enter through Beatmap::from_bytes on generated .osu text",
             "a preset passed_objects on the gradual calculator's Difficulty is outside the property (not generated)",
         ],
+        enumerate: None,
     }
 }
